@@ -467,3 +467,280 @@ def gen(rng, logic=None, kgroups=None, features=None, plain_options=False):
             lines += q("(check-sat)")
             lines += requests(names0)
     return "\n".join(lines) + "\n", dict(logic=logic, options=opts, features=sorted(features), families=fams, nqueries=qn[0], nrequests=nreq[0])
+
+
+# =============================================================================================
+# Focused sweeps (added after seeded changes were missed: see design/C08.md "seeded changes")
+# =============================================================================================
+
+def _q(qn, cmd):
+    qn[0] += 1
+    return ['(echo "@@b%d")' % qn[0], cmd, '(echo "@@e%d")' % qn[0]]
+
+
+def _ordered_groups(rng, names, k):
+    """k groups over all names; half of the time in the order of assertion"""
+    return request(rng, names, k)
+
+
+class _B:
+    """propositional formulas as python trees: ('v', name) ('not', f) ('and', fs) ('or', fs) ('xor', a, b)"""
+
+    @staticmethod
+    def ev(f, a):
+        t = f[0]
+        if t == "v":
+            return a[f[1]]
+        if t == "not":
+            return not _B.ev(f[1], a)
+        if t == "and":
+            return all(_B.ev(x, a) for x in f[1])
+        if t == "or":
+            return any(_B.ev(x, a) for x in f[1])
+        return _B.ev(f[1], a) != _B.ev(f[2], a)
+
+    @staticmethod
+    def tx(f):
+        t = f[0]
+        if t == "v":
+            return f[1]
+        if t == "not":
+            return "(not %s)" % _B.tx(f[1])
+        if t in ("and", "or"):
+            return _B.tx(f[1][0]) if len(f[1]) == 1 else "(%s %s)" % (t, " ".join(_B.tx(x) for x in f[1]))
+        return "(xor %s %s)" % (_B.tx(f[1]), _B.tx(f[2]))
+
+
+def _lit(rng, v):
+    return ("v", v) if rng.random() < 0.5 else ("not", ("v", v))
+
+
+def _nested(rng, vs, depth):
+    op = rng.choice(["and", "or", "or"])
+    kids = []
+    for v in rng.sample(vs, min(len(vs), rng.randint(2, 3))):
+        kids.append(_lit(rng, v) if depth <= 1 or rng.random() < 0.6 else _nested(rng, vs, depth - 1))
+    return (op, kids)
+
+
+def _bool_instance(rng, ngroups):
+    """list of ngroups formulas (python trees) over variables vs, propositionally unsat as a whole; the refutations of these
+    shapes reuse derived clauses (random 3-SAT above the threshold, mixed clauses + nested and/or, parity chains, pigeons)"""
+    import itertools
+    shape = rng.choice(["mix", "mix", "mix", "3sat", "3sat", "xor", "php"])
+    for _ in range(60):
+        if shape == "mix":
+            nv = rng.randint(5, 9)
+            vs = ["v%d" % i for i in range(nv)]
+            groups = []
+            for _g in range(ngroups):
+                sub = rng.sample(vs, rng.randint(3, min(nv, 6)))
+                cls = []
+                for _c in range(rng.randint(3, 7)):
+                    if rng.random() < 0.7:
+                        cls.append(("or", [_lit(rng, v) for v in rng.sample(sub, min(rng.randint(2, 3), len(sub)))]))
+                    else:
+                        cls.append(_nested(rng, sub, 2))
+                groups.append(("and", cls))
+        elif shape == "3sat":
+            nv = rng.randint(8, 11)
+            vs = ["v%d" % i for i in range(nv)]
+            ncl = int(nv * rng.choice([4.6, 5.2, 6.0]))
+            cls = [("or", [_lit(rng, v) for v in rng.sample(vs, 3)]) for _c in range(ncl)]
+            rng.shuffle(cls)
+            groups = [[] for _g in range(ngroups)]
+            for i, c in enumerate(cls):
+                groups[i % ngroups if rng.random() < 0.5 else rng.randrange(ngroups)].append(c)
+            groups = [("and", gp) for gp in groups if gp]
+        elif shape == "xor":
+            nv = rng.randint(5, 9)
+            vs = ["v%d" % i for i in range(nv)]
+            # a cycle of parity constraints with odd total parity
+            links = []
+            par = 0
+            for i in range(nv):
+                b = rng.random() < 0.5
+                par ^= b
+                x = ("xor", ("v", vs[i]), ("v", vs[(i + 1) % nv]))
+                links.append(x if b else ("not", x))
+            if not par:
+                links[0] = ("not", links[0]) if links[0][0] == "xor" else links[0][1]
+            links += [("or", [_lit(rng, v) for v in rng.sample(vs, 2)]) for _c in range(rng.randint(0, 3))]
+            rng.shuffle(links)
+            groups = [[] for _g in range(ngroups)]
+            for i, c in enumerate(links):
+                groups[i % ngroups].append(c)
+            groups = [("and", gp) for gp in groups if gp]
+        else:
+            holes = 2
+            pig = 3
+            vs = ["v%d" % (i * holes + j) for i in range(pig) for j in range(holes)] + ["v6", "v7"]
+            P = lambda i, j: ("v", "v%d" % (i * holes + j))
+            cls = [("or", [P(i, j) for j in range(holes)]) for i in range(pig)]
+            cls += [("or", [("not", P(i, j)), ("not", P(k, j))]) for j in range(holes) for i in range(pig) for k in range(i + 1, pig)]
+            cls += [("or", [_lit(rng, v) for v in rng.sample(vs, 3)]) for _c in range(rng.randint(0, 4))]
+            rng.shuffle(cls)
+            groups = [[] for _g in range(ngroups)]
+            for i, c in enumerate(cls):
+                groups[rng.randrange(ngroups) if rng.random() < 0.6 else i % ngroups].append(c)
+            groups = [("and", gp) for gp in groups if gp]
+        if len(groups) < 2:
+            continue
+        sat = False
+        for bits in itertools.product([False, True], repeat=len(vs)):
+            a = dict(zip(vs, bits))
+            if all(_B.ev(gp, a) for gp in groups):
+                sat = True
+                break
+        if not sat:
+            return shape, vs, groups
+        if shape == "3sat" and rng.random() < 0.5:
+            shape = "mix"
+    vs = ["v0", "v1"]
+    return "fallback", vs, [("v", "v0"), ("or", [("not", ("v", "v0")), ("v", "v1")]), ("not", ("v", "v1"))][:max(2, ngroups)] if ngroups >= 3 else \
+        ("fallback", vs, [("v", "v0"), ("not", ("v", "v0"))])[1:]
+
+
+def gen_boolsweep(rng, kgroups=None):
+    """One propositional instance; every request is repeated under EVERY value of :simplify-interpolants (0..4), each time with a
+    PRNG :interpolation-bool-algorithm (options are read when get-interpolants builds its InterpolationContext)."""
+    n = rng.randint(2, 4) if not kgroups else rng.randint(3, 5)
+    r = _bool_instance(rng, n)
+    shape, vs, groups = r[0], r[1], r[2]
+    lines = ["(set-option :produce-interpolants true)"]
+    if rng.random() < 0.3:
+        lines.append("(set-option :proof-reduce 1)")
+    lines.append("(set-logic QF_UF)")
+    lines += ["(declare-fun %s () Bool)" % v for v in vs]
+    names = []
+    for i, gp in enumerate(groups):
+        lines.append("(assert (! %s :named a%d))" % (_B.tx(gp), i))
+        names.append("a%d" % i)
+    qn = [0]
+    lines += _q(qn, "(check-sat)")
+    nreq = 0
+    for _ in range(1 if kgroups else rng.randint(1, 2)):
+        k = 2 if not kgroups else rng.randint(3, min(5, len(names)))
+        if len(names) < k:
+            k = len(names)
+        gs = request(rng, names, k)
+        cmd = "(get-interpolants %s)" % " ".join(group_text(x) for x in gs)
+        levels = [0, 1, 2, 3, 4]
+        rng.shuffle(levels)
+        for lv in levels:
+            lines.append("(set-option :simplify-interpolants %d)" % lv)
+            lines.append("(set-option :interpolation-bool-algorithm %d)" % rng.choice(BOOL_ALGS))
+            lines += _q(qn, cmd)
+            nreq += 1
+    return "\n".join(lines) + "\n", dict(logic="QF_BOOL", options={}, features=["boolsweep"], families=["boolsweep-" + shape], nqueries=qn[0], nrequests=nreq)
+
+
+def _lterm(c, v):
+    if c == 1:
+        return v
+    if c == -1:
+        return "(- %s)" % v
+    return "(* %s %s)" % (str(c) if c >= 0 else "(- %d)" % -c, v)
+
+
+def gen_decomp(rng, kgroups=None):
+    """A Farkas conflict aimed at the decomposing interpolation algorithms (:interpolation-lra-algorithm 4 / 5): an A side of 4-8
+    inequalities over 2-4 A-local variables (local-variable matrix with nullity >= 2) and shared variables (one per inequality,
+    or 1-3 shared variables spread over the inequalities), a B side closing the conflict; assertions in random order; the
+    request is repeated under PRNG-ordered values of :interpolation-lra-algorithm (always 4 and 5, plus one of 0, 2, 3)."""
+    logic = "QF_LRA" if rng.random() < 0.8 else "QF_LIA"
+    sort = "Real" if logic == "QF_LRA" else "Int"
+    r = rng.randint(1, 4) if rng.random() < 0.3 else rng.randint(2, 4)
+    m = min(8, r + rng.randint(2, 4))
+    lam = [rng.randint(1, 4) for _ in range(m - 1)] + [1]
+    M = []
+    for _j in range(r):
+        row = [rng.randint(-3, 3) for _ in range(m - 1)]
+        row.append(-sum(row[k] * lam[k] for k in range(m - 1)))
+        M.append(row)
+    us = ["u%d" % j for j in range(r)]
+    own = rng.random() < 0.6
+    if own:
+        ss = ["s%d" % k for k in range(m)]
+        N = [[1 if i == k else 0 for k in range(m)] for i in range(m)]
+    else:
+        q = rng.randint(1, 3)
+        ss = ["s%d" % i for i in range(q)]
+        N = [[rng.randint(-2, 2) for _k in range(m)] for _i in range(q)]
+        for k in range(m):
+            if all(N[i][k] == 0 for i in range(q)):
+                N[rng.randrange(q)][k] = rng.choice([-1, 1, 2])
+    cs = [rng.randint(-2, 2) if rng.random() < 0.4 else 0 for _ in range(m)]
+    A = []
+    for k in range(m):
+        ts = [_lterm(M[j][k], us[j]) for j in range(r) if M[j][k] != 0] + [_lterm(N[i][k], ss[i]) for i in range(len(ss)) if N[i][k] != 0]
+        if cs[k]:
+            ts.append(str(cs[k]) if cs[k] > 0 else "(- %d)" % -cs[k])
+        lhs = "(+ %s)" % " ".join(ts) if len(ts) > 1 else ts[0]
+        strict = rng.random() < 0.2
+        form = rng.random()
+        if form < 0.6:
+            A.append("(%s %s 0)" % (">" if strict else ">=", lhs))
+        elif form < 0.8:
+            A.append("(%s 0 %s)" % ("<" if strict else "<=", lhs))
+        else:
+            A.append("(not (%s %s 0))" % ("<=" if strict else "<", lhs))
+    # sum_k lam_k * A_k :  sum_i (sum_k lam_k N[i][k]) s_i + sum_k lam_k c_k >= 0
+    coef = [sum(lam[k] * N[i][k] for k in range(m)) for i in range(len(ss))]
+    const = sum(lam[k] * cs[k] for k in range(m))
+    ts = [_lterm(coef[i], ss[i]) for i in range(len(ss)) if coef[i] != 0]
+    form_s = "(+ %s)" % " ".join(ts) if len(ts) > 1 else (ts[0] if ts else "0")
+    bound = -const - 1 - rng.randint(0, 2)          # form_s <= bound  contradicts  form_s >= -const
+    btxt = str(bound) if bound >= 0 else "(- %d)" % -bound
+    lines = ["(set-option :produce-interpolants true)"]
+    if rng.random() < 0.5:
+        lines.append("(set-option :interpolation-bool-algorithm %d)" % rng.choice(BOOL_ALGS))
+    if rng.random() < 0.25:
+        lines.append("(set-option :simplify-interpolants %d)" % rng.choice(SIMPLIFY))
+    lines.append("(set-logic %s)" % logic)
+    decl = us + ss + (["t"] if kgroups else [])
+    rng.shuffle(decl)
+    lines += ["(declare-fun %s () %s)" % (v, sort) for v in decl]
+    named = []            # (name, formula, side)
+    if kgroups:
+        for k, f in enumerate(A):
+            named.append(("c%d" % k, f, "A"))
+        named.append(("b1", "(<= %s t)" % form_s, "B"))
+        named.append(("b2", "(<= t %s)" % btxt, "B"))
+    else:
+        split_a = rng.random() < 0.5
+        if split_a:
+            for k, f in enumerate(A):
+                named.append(("c%d" % k, f, "A"))
+        else:
+            order = list(A)
+            rng.shuffle(order)
+            named.append(("pa", "(and %s)" % " ".join(order), "A"))
+        named.append(("pb", "(<= %s %s)" % (form_s, btxt), "B"))
+    rng.shuffle(named)
+    for nm, f, _side in named:
+        lines.append("(assert (! %s :named %s))" % (f, nm))
+    qn = [0]
+    lines += _q(qn, "(check-sat)")
+    an = [nm for nm, _f, side in named if side == "A"]
+    bn = [nm for nm, _f, side in named if side == "B"]
+    algs = [4, 5, rng.choice([0, 2, 3])]
+    rng.shuffle(algs)
+    nreq = 0
+    for alg in algs:
+        lines.append("(set-option :interpolation-lra-algorithm %d)" % alg)
+        if alg == 3:
+            lines.append('(set-option :interpolation-lra-factor "%s")' % rng.choice(LRA_FACTORS))
+        if kgroups:
+            if rng.random() < 0.6 or len(an) < 2:
+                ga = [an]
+            else:
+                cut = rng.randint(1, len(an) - 1)
+                ga = [an[:cut], an[cut:]]
+            gb = [[b] for b in (bn if rng.random() < 0.5 else bn[::-1])]
+            gs = ga + gb if rng.random() < 0.7 else gb + ga
+        else:
+            gs = [an, bn] if rng.random() < 0.6 else [bn, an]
+        lines += _q(qn, "(get-interpolants %s)" % " ".join(group_text(x) for x in gs))
+        nreq += 1
+    return "\n".join(lines) + "\n", dict(logic=logic, options={}, features=["decomp"], families=["decomp-%s" % ("own" if own else "few")], nqueries=qn[0], nrequests=nreq)
